@@ -1,5 +1,612 @@
-//! (to be written)
-pub fn cmd(_args: &crate::Args) {
-    eprintln!("damage: not implemented yet");
-    std::process::exit(2);
+//! Damage expansion: closed images of recorded runs + damage operations + the real `open`.
+//!
+//! Classes (the alphabet of the properties):
+//!   payload, crc      single frame, payload / checksum bytes only          (C09, C12, C08, C10)
+//!   hdr               single frame, length / type bytes, zeroed header     (C08, C12, C10)
+//!   noise             bit flips, garbage and zero ranges anywhere, 1-3 ops (C08, C10)
+//!   embed             aimed length damage of a frame whose payload embeds a forged frame (C08: D4)
+//!   struct            truncated / removed / duplicated / swapped files and blocks, stray
+//!                     entries, random blocks, blocks of valid-looking headers (C10 only)
+use std::collections::BTreeMap;
+use std::path::PathBuf;
+use std::sync::Arc;
+use std::time::Duration;
+
+use mrecordlog::verif::{self, IoEvent};
+use serde_json::{json, Value};
+
+use crate::crash::{assemble, recover_with, Extra, Recovery};
+use crate::disk::{FileImg, Image};
+use crate::exec::run_script;
+use crate::gen::Rng;
+use crate::script::{Script, Step};
+use crate::{load_scripts, parallel, write_lines, Args, Output};
+
+const BLOCK: usize = 32_768;
+
+#[derive(Clone, Debug)]
+pub enum Op {
+    Xor { file: u64, off: usize, mask: u8 },
+    Write { file: u64, off: usize, bytes: Vec<u8> },
+    Zero { file: u64, off: usize, len: usize },
+    TruncateFile { file: u64, len: usize },
+    RemoveFile { file: u64 },
+    CopyFile { from: u64, to: u64 },
+    SwapFiles { a: u64, b: u64 },
+    CopyBlock { from: (u64, usize), to: (u64, usize) },
+    SwapBlocks { a: (u64, usize), b: (u64, usize) },
+    Add(Extra),
+}
+
+fn op_json(op: &Op) -> Value {
+    match op {
+        Op::Xor { file, off, mask } => json!({"k": "xor", "f": file, "o": off, "n": mask}),
+        Op::Write { file, off, bytes } => json!({"k": "write", "f": file, "o": off, "n": bytes.len()}),
+        Op::Zero { file, off, len } => json!({"k": "zero", "f": file, "o": off, "n": len}),
+        Op::TruncateFile { file, len } => json!({"k": "truncfile", "f": file, "o": 0, "n": len}),
+        Op::RemoveFile { file } => json!({"k": "rmfile", "f": file, "o": 0, "n": 0}),
+        Op::CopyFile { from, to } => json!({"k": "cpfile", "f": from, "o": 0, "n": to}),
+        Op::SwapFiles { a, b } => json!({"k": "swapfiles", "f": a, "o": 0, "n": b}),
+        Op::CopyBlock { from, to } => json!({"k": "cpblock", "f": from.0, "o": from.1, "n": to.0 * 1000 + to.1 as u64}),
+        Op::SwapBlocks { a, b } => json!({"k": "swapblocks", "f": a.0, "o": a.1, "n": b.0 * 1000 + b.1 as u64}),
+        Op::Add(extra) => match extra {
+            Extra::File { name, .. } => json!({"k": "addfile", "f": -1, "o": 0, "n": name.len()}),
+            Extra::Dir { name } => json!({"k": "adddir", "f": -1, "o": 0, "n": name.len()}),
+            Extra::Symlink { name, .. } => json!({"k": "addlink", "f": -1, "o": 0, "n": name.len()}),
+        },
+    }
+}
+
+fn apply(files: &mut BTreeMap<u64, FileImg>, extras: &mut Vec<Extra>, op: &Op) {
+    match op {
+        Op::Xor { file, off, mask } => {
+            if let Some(img) = files.get_mut(file) {
+                if *off < img.data.len() {
+                    img.data[*off] ^= mask;
+                }
+            }
+        }
+        Op::Write { file, off, bytes } => {
+            if let Some(img) = files.get_mut(file) {
+                let end = (*off + bytes.len()).min(img.data.len());
+                if *off < end {
+                    img.data[*off..end].copy_from_slice(&bytes[..end - off]);
+                }
+            }
+        }
+        Op::Zero { file, off, len } => {
+            if let Some(img) = files.get_mut(file) {
+                let end = (*off + len).min(img.data.len());
+                if *off < end {
+                    img.data[*off..end].iter_mut().for_each(|byte| *byte = 0);
+                }
+            }
+        }
+        Op::TruncateFile { file, len } => {
+            if let Some(img) = files.get_mut(file) {
+                img.data.truncate(*len);
+            }
+        }
+        Op::RemoveFile { file } => {
+            files.remove(file);
+        }
+        Op::CopyFile { from, to } => {
+            if let Some(img) = files.get(from).cloned() {
+                files.insert(*to, img);
+            }
+        }
+        Op::SwapFiles { a, b } => {
+            let img_a = files.remove(a);
+            let img_b = files.remove(b);
+            if let Some(img) = img_a {
+                files.insert(*b, img);
+            }
+            if let Some(img) = img_b {
+                files.insert(*a, img);
+            }
+        }
+        Op::CopyBlock { from, to } => {
+            let block: Option<Vec<u8>> = files.get(&from.0).and_then(|img| {
+                img.data.get(from.1 * BLOCK..(from.1 + 1) * BLOCK).map(|slice| slice.to_vec())
+            });
+            if let (Some(block), Some(img)) = (block, files.get_mut(&to.0)) {
+                if (to.1 + 1) * BLOCK <= img.data.len() {
+                    img.data[to.1 * BLOCK..(to.1 + 1) * BLOCK].copy_from_slice(&block);
+                }
+            }
+        }
+        Op::SwapBlocks { a, b } => {
+            let get = |files: &BTreeMap<u64, FileImg>, at: &(u64, usize)| -> Option<Vec<u8>> {
+                files
+                    .get(&at.0)
+                    .and_then(|img| img.data.get(at.1 * BLOCK..(at.1 + 1) * BLOCK).map(|slice| slice.to_vec()))
+            };
+            if let (Some(block_a), Some(block_b)) = (get(files, a), get(files, b)) {
+                files.get_mut(&a.0).unwrap().data[a.1 * BLOCK..(a.1 + 1) * BLOCK].copy_from_slice(&block_b);
+                files.get_mut(&b.0).unwrap().data[b.1 * BLOCK..(b.1 + 1) * BLOCK].copy_from_slice(&block_a);
+            }
+        }
+        Op::Add(extra) => extras.push(extra.clone()),
+    }
+}
+
+/// One written frame with the WAL entry it belongs to.
+#[derive(Clone, Debug)]
+pub struct Frame {
+    pub file: u64,
+    pub off: usize,
+    pub len: usize,
+    pub frame_type: u8,
+    pub entry: usize,
+    pub bytes: Vec<u8>,
+}
+
+#[derive(Clone, Debug)]
+pub struct EntryInfo {
+    pub kind: &'static str,
+    pub q: i64,
+    pub first: i64,
+    pub n: usize,
+    pub step: i64,
+}
+
+pub fn frames_and_entries(script: &Script, all: &[(i64, &IoEvent)]) -> (Vec<Frame>, Vec<EntryInfo>) {
+    let mut frames = Vec::new();
+    let mut entries: Vec<EntryInfo> = Vec::new();
+    let mut buffer: Vec<u8> = Vec::new();
+    for (step, event) in all {
+        if let IoEvent::BufWrite { file, offset, bytes, .. } = event {
+            if bytes.len() < 7 {
+                continue;
+            }
+            let frame_type = bytes[6];
+            if frame_type == 1 || frame_type == 2 {
+                buffer.clear();
+                entries.push(EntryInfo { kind: "unknown", q: -1, first: -1, n: 0, step: *step });
+            }
+            buffer.extend_from_slice(&bytes[7..]);
+            let ordinal = entries.len();
+            frames.push(Frame {
+                file: *file,
+                off: *offset as usize,
+                len: bytes.len(),
+                frame_type,
+                entry: ordinal,
+                bytes: bytes.clone(),
+            });
+            if frame_type == 1 || frame_type == 4 {
+                if let Some(decoded) = verif::decode_entry(&buffer) {
+                    let info = entries.last_mut().unwrap();
+                    match decoded {
+                        verif::Entry::Append { queue, records, .. } => {
+                            info.kind = "append";
+                            info.q = script.queue_index(&queue);
+                            info.first = records.first().map(|(pos, _)| script.enc(*pos)).unwrap_or(-1);
+                            info.n = records.len();
+                        }
+                        verif::Entry::Truncate { queue, position } => {
+                            info.kind = "trunc";
+                            info.q = script.queue_index(&queue);
+                            info.first = script.enc(position);
+                        }
+                        verif::Entry::Position { queue, position } => {
+                            info.kind = "pos";
+                            info.q = script.queue_index(&queue);
+                            info.first = script.enc(position);
+                        }
+                        verif::Entry::Delete { queue, position } => {
+                            info.kind = "del";
+                            info.q = script.queue_index(&queue);
+                            info.first = script.enc(position);
+                        }
+                    }
+                }
+            }
+        }
+    }
+    (frames, entries)
+}
+
+pub struct Case {
+    pub cls: &'static str,
+    pub ops: Vec<Op>,
+    /// ordinal of the entry owning the single damaged frame, 0 if not a single-frame damage
+    pub hit: usize,
+    /// frame type of the damaged frame, 0 if none
+    pub hit_type: u8,
+}
+
+fn garbage(rng: &mut Rng, len: usize) -> Vec<u8> {
+    let mut out = Vec::with_capacity(len + 8);
+    while out.len() < len {
+        out.extend_from_slice(&rng.next().to_le_bytes());
+    }
+    out.truncate(len);
+    out
+}
+
+fn single_frame_cases(frames: &[Frame], classes: &[String], rng: &mut Rng, thorough: bool, out: &mut Vec<Case>) {
+    for frame in frames {
+        let pay = frame.len - 7;
+        let (file, off) = (frame.file, frame.off);
+        let mut push = |cls: &'static str, ops: Vec<Op>| {
+            out.push(Case { cls, ops, hit: frame.entry, hit_type: frame.frame_type });
+        };
+        if classes.iter().any(|cls| cls == "payload") && pay > 0 {
+            let mut spots = vec![0, pay / 2, pay - 1];
+            spots.dedup();
+            for spot in spots {
+                push("payload", vec![Op::Xor { file, off: off + 7 + spot, mask: 1 << rng.below(8) }]);
+            }
+            push("payload", vec![Op::Write { file, off: off + 7, bytes: garbage(rng, pay) }]);
+            push("payload", vec![Op::Zero { file, off: off + 7, len: pay }]);
+            if thorough {
+                for _ in 0..4 {
+                    let spot = rng.below(pay as u64) as usize;
+                    push("payload", vec![Op::Xor { file, off: off + 7 + spot, mask: 1 << rng.below(8) }]);
+                }
+            }
+        }
+        if classes.iter().any(|cls| cls == "crc") {
+            for byte in 0..4 {
+                push("crc", vec![Op::Xor { file, off: off + byte, mask: 1 << rng.below(8) }]);
+            }
+            push("crc", vec![Op::Write { file, off, bytes: garbage(rng, 4) }]);
+            if thorough {
+                for bit in 0..32 {
+                    push("crc", vec![Op::Xor { file, off: off + bit / 8, mask: 1 << (bit % 8) }]);
+                }
+            }
+        }
+        if classes.iter().any(|cls| cls == "hdr") {
+            // length field: every bit (thorough) or a few; type byte: other valid, invalid; zero header
+            let bits: Vec<usize> = if thorough { (0..16).collect() } else { vec![0, 3, 7, 8, 12, 15] };
+            for bit in bits {
+                push("hdr", vec![Op::Xor { file, off: off + 4 + bit / 8, mask: 1 << (bit % 8) }]);
+            }
+            for new_type in [0u8, 1, 2, 3, 4, 5, 0xff] {
+                if new_type != frame.frame_type {
+                    push("hdr", vec![Op::Write { file, off: off + 6, bytes: vec![new_type] }]);
+                }
+            }
+            push("hdr", vec![Op::Zero { file, off, len: 7 }]);
+            push("hdr", vec![Op::Write { file, off, bytes: garbage(rng, 7) }]);
+            // a shorter / longer declared length
+            for new_len in [0u16, 1, (pay as u16).wrapping_sub(1), (pay as u16).wrapping_add(1), 0x7fff, 0xffff] {
+                push("hdr", vec![Op::Write { file, off: off + 4, bytes: new_len.to_le_bytes().to_vec() }]);
+            }
+        }
+    }
+}
+
+fn find(haystack: &[u8], needle: &[u8]) -> Option<usize> {
+    haystack.windows(needle.len()).position(|window| window == needle)
+}
+
+fn embed_cases(script: &Script, frames: &[Frame], out: &mut Vec<Case>) {
+    // for every payload with an embedded forged frame: aim the enclosing frame's length field so
+    // that the reader resynchronises exactly on the forged frame
+    for step in &script.steps {
+        if let Step::Append { batch, .. } = step {
+            for payload in batch {
+                if let Some(embed) = &payload.embed {
+                    let inner = crate::script::plain_bytes(embed.pseed, embed.plen);
+                    let entry = verif::Entry::Append {
+                        queue: script.queues[embed.q].clone(),
+                        position: embed.pos,
+                        records: vec![(embed.pos, inner)],
+                    };
+                    let forged = crate::exec::forge_frame(&verif::encode_entry(&entry));
+                    for frame in frames {
+                        if let Some(at) = find(&frame.bytes, &forged) {
+                            if at >= 7 {
+                                let new_len = (at - 7) as u16;
+                                out.push(Case {
+                                    cls: "embed",
+                                    ops: vec![Op::Write {
+                                        file: frame.file,
+                                        off: frame.off + 4,
+                                        bytes: new_len.to_le_bytes().to_vec(),
+                                    }],
+                                    hit: frame.entry,
+                                    hit_type: frame.frame_type,
+                                });
+                            }
+                        }
+                    }
+                }
+            }
+        }
+    }
+}
+
+fn noise_cases(files: &BTreeMap<u64, FileImg>, frames: &[Frame], rng: &mut Rng, count: usize, out: &mut Vec<Case>) {
+    let numbers: Vec<u64> = files.keys().copied().collect();
+    if numbers.is_empty() {
+        return;
+    }
+    let data_end: BTreeMap<u64, usize> = {
+        let mut ends = BTreeMap::new();
+        for frame in frames {
+            let end = ends.entry(frame.file).or_insert(0usize);
+            *end = (*end).max(frame.off + frame.len);
+        }
+        ends
+    };
+    for _ in 0..count {
+        let n_ops = 1 + rng.below(3) as usize;
+        let mut ops = Vec::new();
+        for _ in 0..n_ops {
+            let file = *rng.pick(&numbers);
+            let size = files[&file].data.len().max(1);
+            let used = data_end.get(&file).copied().unwrap_or(0).max(64).min(size);
+            // mostly inside the written part, sometimes anywhere
+            let off = if rng.chance(85) { rng.below(used as u64) as usize } else { rng.below(size as u64) as usize };
+            match rng.below(8) {
+                0 | 1 => ops.push(Op::Xor { file, off, mask: 1 << rng.below(8) }),
+                2 => {
+                    let len = 1 + rng.below(16) as usize;
+                    ops.push(Op::Write { file, off, bytes: garbage(rng, len) });
+                }
+                3 => {
+                    let len = 1 + rng.below(2000) as usize;
+                    ops.push(Op::Write { file, off, bytes: garbage(rng, len) });
+                }
+                4 => {
+                    let len = BLOCK / 2 + rng.below(3 * BLOCK as u64) as usize;
+                    ops.push(Op::Write { file, off, bytes: garbage(rng, len) });
+                }
+                5 => ops.push(Op::Zero { file, off, len: 1 + rng.below(64) as usize }),
+                6 => ops.push(Op::Zero { file, off, len: 1 + rng.below(2 * BLOCK as u64) as usize }),
+                _ => {
+                    // the last bytes of a block / the first bytes of the next one
+                    let block = off / BLOCK;
+                    let at = ((block + 1) * BLOCK).saturating_sub(1 + rng.below(9) as usize);
+                    let len = 1 + rng.below(16) as usize;
+                    ops.push(Op::Write { file, off: at.min(size - 1), bytes: garbage(rng, len) });
+                }
+            }
+        }
+        out.push(Case { cls: "noise", ops, hit: 0, hit_type: 0 });
+    }
+}
+
+fn fake_header_block(rng: &mut Rng) -> Vec<u8> {
+    let mut block = Vec::with_capacity(BLOCK);
+    while block.len() + 7 <= BLOCK {
+        let len = match rng.below(4) {
+            0 => 0,
+            1 => rng.below(40),
+            2 => rng.below(4000),
+            _ => rng.below(40_000),
+        } as u16;
+        block.extend_from_slice(&(rng.next() as u32).to_le_bytes());
+        block.extend_from_slice(&len.to_le_bytes());
+        block.push(1 + rng.below(4) as u8);
+        let body = (len as usize).min(BLOCK - block.len());
+        block.extend_from_slice(&garbage(rng, body));
+    }
+    block.resize(BLOCK, 0);
+    block
+}
+
+fn struct_cases(files: &BTreeMap<u64, FileImg>, rng: &mut Rng, count: usize, out: &mut Vec<Case>) {
+    let numbers: Vec<u64> = files.keys().copied().collect();
+    if numbers.is_empty() {
+        return;
+    }
+    let first = numbers[0];
+    let last = *numbers.last().unwrap();
+    let wal_name = |number: u64| format!("wal-{number:020}").into_bytes();
+    let mut fixed: Vec<Vec<Op>> = vec![
+        vec![Op::TruncateFile { file: first, len: 0 }],
+        vec![Op::TruncateFile { file: last, len: 0 }],
+        vec![Op::TruncateFile { file: first, len: 1 }],
+        vec![Op::TruncateFile { file: last, len: BLOCK - 1 }],
+        vec![Op::TruncateFile { file: first, len: BLOCK + 1 }],
+        vec![Op::TruncateFile { file: last, len: 2 * BLOCK + 5 }],
+        vec![Op::RemoveFile { file: first }],
+        vec![Op::RemoveFile { file: last }],
+        vec![Op::CopyFile { from: first, to: last + 1 }],
+        vec![Op::CopyFile { from: last, to: last + 2 }],
+        vec![Op::CopyFile { from: last, to: last + 1_000_000 }],
+        vec![Op::CopyFile { from: last, to: u64::MAX - 1 }],
+        vec![Op::Add(Extra::Dir { name: wal_name(last + 1) })],
+        vec![Op::Add(Extra::Symlink { name: wal_name(last + 1), target: wal_name(first) })],
+        vec![Op::Add(Extra::Symlink { name: wal_name(last + 3), target: b"does-not-exist".to_vec() })],
+        vec![Op::Add(Extra::File { name: b"wal-0000000000000000000".to_vec(), content: garbage(rng, 100) })],
+        vec![Op::Add(Extra::File { name: b"wal-000000000000000000001".to_vec(), content: garbage(rng, 100) })],
+        vec![Op::Add(Extra::File { name: b"notes.txt".to_vec(), content: b"hello".to_vec() })],
+        vec![Op::Add(Extra::File { name: vec![b'w', b'a', b'l', b'-', 0xff, 0xfe], content: vec![1, 2, 3] })],
+        vec![Op::Add(Extra::File { name: wal_name(last + 1), content: Vec::new() })],
+        vec![Op::Add(Extra::File { name: wal_name(last + 1), content: garbage(rng, BLOCK - 1) })],
+        vec![Op::Add(Extra::File { name: wal_name(last + 1), content: fake_header_block(rng) })],
+        vec![Op::Add(Extra::File { name: wal_name(last + 2), content: garbage(rng, 4 * BLOCK) })],
+    ];
+    if numbers.len() >= 2 {
+        let middle = numbers[numbers.len() / 2];
+        fixed.push(vec![Op::RemoveFile { file: middle }]);
+        fixed.push(vec![Op::SwapFiles { a: first, b: last }]);
+        fixed.push(vec![Op::TruncateFile { file: middle, len: BLOCK + 100 }]);
+        fixed.push(vec![Op::CopyFile { from: first, to: last }]);
+    }
+    for ops in fixed {
+        out.push(Case { cls: "struct", ops, hit: 0, hit_type: 0 });
+    }
+    for _ in 0..count {
+        let mut ops = Vec::new();
+        for _ in 0..1 + rng.below(3) {
+            let file_a = *rng.pick(&numbers);
+            let file_b = *rng.pick(&numbers);
+            let blocks_a = (files[&file_a].data.len() / BLOCK).max(1);
+            let blocks_b = (files[&file_b].data.len() / BLOCK).max(1);
+            let block_a = rng.below(blocks_a as u64) as usize;
+            let block_b = rng.below(blocks_b as u64) as usize;
+            match rng.below(8) {
+                0 => ops.push(Op::CopyBlock { from: (file_a, block_a), to: (file_b, block_b) }),
+                1 => ops.push(Op::SwapBlocks { a: (file_a, block_a), b: (file_b, block_b) }),
+                2 => ops.push(Op::Write { file: file_a, off: block_a * BLOCK, bytes: garbage(rng, BLOCK) }),
+                3 => ops.push(Op::Write { file: file_a, off: block_a * BLOCK, bytes: fake_header_block(rng) }),
+                4 => ops.push(Op::TruncateFile { file: file_a, len: rng.below(4 * BLOCK as u64 + 1) as usize }),
+                5 => ops.push(Op::Zero { file: file_a, off: block_a * BLOCK, len: BLOCK }),
+                6 => ops.push(Op::CopyFile { from: file_a, to: last + 1 + rng.below(3) }),
+                _ => ops.push(Op::RemoveFile { file: file_a }),
+            }
+        }
+        out.push(Case { cls: "struct", ops, hit: 0, hit_type: 0 });
+    }
+}
+
+fn group_key(cls: &str, hit: usize, recovery: &Recovery) -> String {
+    let mut key = format!("{cls}|{hit}|{}|{}|", recovery.out, recovery.accpanic);
+    if let Some(qs) = recovery.st.get("qs") {
+        key.push_str(&qs.to_string());
+    }
+    for line in &recovery.cont {
+        if line["ev"] == "end" {
+            key.push_str(&line["res"].to_string());
+            if let Some(qs) = line.get("st").and_then(|st| st.get("qs")) {
+                key.push_str(&qs.to_string());
+            }
+        }
+    }
+    key
+}
+
+pub fn cmd(args: &Args) {
+    let scripts = Arc::new(load_scripts(args));
+    let out_dir = PathBuf::from(args.get("out", "/dev/shm/mrl-out"));
+    let output = Arc::new(Output::new(&out_dir));
+    let classes: Vec<String> = args
+        .get("classes", "payload,crc")
+        .split(',')
+        .map(|cls| cls.to_string())
+        .collect();
+    let thorough = args.flag("thorough");
+    let noise_count = args.num("noise", 200) as usize;
+    let struct_count = args.num("struct", 100) as usize;
+    let max_cases = args.num("max-cases", 0) as usize;
+    let cont = args.flag("cont");
+    let seed = args.num("seed", 1);
+    let deadline = Duration::from_secs(args.num("deadline", 10));
+    let n = scripts.len();
+    let output_in = output.clone();
+    parallel(n, args.num("jobs", 8) as usize, &out_dir, "trace", move |job, file| {
+        let script = &scripts[job];
+        std::fs::write(
+            output_in.dir.join("scripts").join(format!("{}.json", script.name)),
+            serde_json::to_vec(script).unwrap(),
+        )
+        .unwrap();
+        let (record, mut runner) = run_script(script, job);
+        drop(runner.log.take());
+        let image = Image::from_dir(&runner.dir.path);
+        drop(runner);
+        output_in.add("runs", 1);
+        output_in.add("calls", record.steps.len() as u64);
+        if record.aborted {
+            output_in.add("aborted_runs", 1);
+            write_lines(file, &assemble(&record, Vec::new()));
+            return;
+        }
+        let mut all: Vec<(i64, &IoEvent)> = record.open_events.iter().map(|event| (-1i64, event)).collect();
+        for step in &record.steps {
+            all.extend(step.events.iter().map(|event| (step.idx as i64, event)));
+        }
+        let (frames, entries) = frames_and_entries(script, &all);
+        let live: Vec<Frame> = frames
+            .iter()
+            .filter(|frame| image.files.contains_key(&frame.file))
+            .cloned()
+            .collect();
+        output_in.add("frames_in_images", live.len() as u64);
+        let mut rng = Rng(seed.wrapping_mul(0x1234_5677).wrapping_add(job as u64));
+        let mut cases = Vec::new();
+        single_frame_cases(&live, &classes, &mut rng, thorough, &mut cases);
+        if classes.iter().any(|cls| cls == "embed") {
+            embed_cases(script, &live, &mut cases);
+        }
+        if classes.iter().any(|cls| cls == "noise") {
+            noise_cases(&image.files, &live, &mut rng, noise_count, &mut cases);
+        }
+        if classes.iter().any(|cls| cls == "struct") {
+            struct_cases(&image.files, &mut rng, struct_count, &mut cases);
+        }
+        if max_cases > 0 && cases.len() > max_cases {
+            // thin evenly
+            let total = cases.len();
+            let mut kept = Vec::new();
+            for (idx, case) in cases.into_iter().enumerate() {
+                if (idx * max_cases) / total != ((idx + 1) * max_cases) / total {
+                    kept.push(case);
+                }
+            }
+            cases = kept;
+        }
+        let mut lines = assemble(&record, Vec::new());
+        let script_arc = Arc::new(script.clone());
+        let mut groups: BTreeMap<String, usize> = BTreeMap::new();
+        let mut group_lines: Vec<Vec<Value>> = Vec::new();
+        for case in &cases {
+            let mut files = image.files.clone();
+            let mut extras = Vec::new();
+            for op in &case.ops {
+                apply(&mut files, &mut extras, op);
+            }
+            let image_bytes: usize = files.values().map(|img| img.data.len()).sum();
+            let case_seed = rng.next();
+            let with_cont = cont && (case.cls == "payload" || case.cls == "crc");
+            let recovery = recover_with(&script_arc, &files, &extras, with_cont, case_seed, deadline);
+            output_in.add("damage_cases", 1);
+            output_in.add(&format!("damage_{}", case.cls), 1);
+            if recovery.out == "ok" {
+                output_in.add("damage_open_ok", 1);
+            } else {
+                output_in.add(&format!("damage_open_{}", recovery.out), 1);
+            }
+            let key = group_key(case.cls, case.hit, &recovery);
+            if let Some(existing) = groups.get(&key) {
+                let line = &mut group_lines[*existing][0];
+                line["n"] = json!(line["n"].as_i64().unwrap() + 1);
+                continue;
+            }
+            let hit = if case.hit > 0 {
+                let info = &entries[case.hit - 1];
+                json!({"entry": case.hit, "kind": info.kind, "q": info.q, "first": info.first, "n": info.n,
+                       "step": info.step, "ftype": case.hit_type})
+            } else {
+                json!({"entry": 0, "kind": "none", "q": -1, "first": -1, "n": 0, "step": -1, "ftype": 0})
+            };
+            let alloc_bound = 8 * image_bytes + (64 << 20);
+            let mut line = json!({
+                "ev": "damage", "cls": case.cls, "ops": case.ops.iter().map(op_json).collect::<Vec<_>>(),
+                "hit": hit, "n": 1, "out": recovery.out, "errtext": recovery.errtext, "accpanic": recovery.accpanic,
+                "peak": recovery.peak, "allocok": (recovery.peak <= alloc_bound) as i64,
+                "ncont": recovery.cont.len(),
+            });
+            if recovery.out == "ok" && recovery.accpanic == 0 {
+                line["st"] = recovery.st.clone();
+            }
+            let mut block = vec![line];
+            block.extend(recovery.cont.iter().cloned());
+            if !recovery.cont.is_empty() {
+                block.push(json!({"ev": "pop"}));
+            }
+            groups.insert(key, group_lines.len());
+            group_lines.push(block);
+            if recovery.out == "timeout" {
+                break;
+            }
+        }
+        output_in.add("damage_groups", group_lines.len() as u64);
+        for block in group_lines {
+            lines.extend(block);
+        }
+        output_in.sample(json!({"script": script.name, "frames": live.len(), "cases": cases.len(),
+            "first_cases": cases.iter().take(3).map(|case| json!({"cls": case.cls, "ops": case.ops.iter().map(op_json).collect::<Vec<_>>()})).collect::<Vec<_>>()}));
+        output_in.add("trace_lines", lines.len() as u64);
+        write_lines(file, &lines);
+    });
+    output.finish(json!({"cmd": "damage", "classes": args.get("classes", "payload,crc")}));
+    crate::exec::cleanup_scratch();
 }
